@@ -30,12 +30,10 @@ import re
 import sys
 
 sys.path.insert(0, os.path.dirname(os.path.abspath(__file__)))
-import translate_pw as pw  # noqa: E402
-import translate_nonce as tn  # noqa: E402
-import translate_addr as ta  # noqa: E402
-from translate_pw import Unsupported, Node, RUST_KEYWORDS, lean_name  # noqa: E402
-from translate_addr import (INTS, ARITH_INTS, BITS, LEAN_INT, PREFIX, ALLOWED_ATTRS, show_type, show_expr, show_pat,  # noqa: E402
-                            type_str, lean_type, is_bytes)
+import translate_nonce as tn  # noqa: E402   (tokenizer)
+import translate_addr as ta  # noqa: E402    (parser, type checker, emitter, support section; itself built on translate_pw)
+from translate_pw import Unsupported, Node, lean_name  # noqa: E402
+from translate_addr import ARITH_INTS, BITS, show_type, show_expr, show_pat, type_str  # noqa: E402
 
 CORE_MOD = "address"
 CORE_FNS = ("write_address_port", "read_address_port")
@@ -395,11 +393,6 @@ class Gen(ta.Gen):
                 inner, _ = self.resolve_type(t.args[0])
                 return ("result", inner), False
         return ta.Gen.resolve_type(self, t)
-
-    def lean_ty(self, t):
-        if t in self.discr:
-            return t
-        return lean_type(t)
 
     # -- calls of translated functions
     def call_sig(self, e, check=True):
